@@ -62,4 +62,18 @@ PROPS = {
         "level_text": "Machine-checked Lean 4 theorems over all operation sequences and all field values: apps_once_first_order (+ dedupL_nodup, mem_dedupL, dedupL_snoc), entry_spec (per app id: first insertion's app data, update check iff added with the params' flags, ping iff added, exactly the events added in order), ids_spec, applyAll_append (build_pure), app_members / event_members / body_members / cohort_only_set_fields / updatecheck_flags / ping_ad_eq_rd / headers_shape / build_spec at the JSON-value level; the text layer and the whole builder are tied to the real RequestBuilder byte-for-byte on every run.",
         "level_note": "Trusted: Lean kernel; the model of serde/serde_json/http behaviour; harness and diff. The stretch theorem parse_render (text level) is not proved; byte-exactness is established by the correspondence only.",
     },
+    "C16": {
+        "lean_modules": ["Omaha.Props.C16"],
+        "streams": [{"name": "resp", "file": "resp", "args": ["resp"], "outside_ok": True}],
+        "rule": "documents from an independent generator of the response grammar (own JSON writer: random member order, whitespace, \\u escapes incl. surrogate pairs, extension attributes at every level where the protocol allows them, "
+                "unknown members elsewhere, null-vs-absent-vs-empty optionals, numbers at the u32/u64 boundaries), each also structurally mutated (drop / duplicate / retype / rename a member, number and string edge cases, injected known keys) "
+                "and damaged at byte level (truncation, bit flip, trailing bytes, prefix variants, byte pokes, random bytes), plus escape/surrogate frames and nesting to depth 10 000 in skipped, extension and top positions; "
+                "compared on a canonical dump of every decoded field (or reject); inputs the model declares outside its domain (array-for-struct, strings that are not UTF-8 in skipped positions, over-deep or wild numbers) are only checked for panic-freedom and counted; "
+                "non-trivial = every case; distinct = (kind, app count, size bucket) / (mutation kinds, app count) class",
+        "trusted_extra": ["modelled, not verified: serde_json's text grammar (strict and lenient readers, recursion limit), serde derive semantics (required/optional, flatten, field_identifier catch-all, duplicate-field rules, Content buffering), BTreeMap ordering of extension attributes",
+                          "panic-freedom / stack safety of serde_json itself is tested by the correspondence runs (incl. 10 000-deep documents), not proved"],
+        "assumptions": ["a JSON array in the position of a derived struct is read positionally by serde; the model declares such documents outside its domain unless they are too short to succeed"],
+        "level_text": "Machine-checked Lean 4 theorems: decode_encode (every well-formed Response value of the protocol grammar is decoded field for field, via decodePackage/Action/Manifest/Urls/UpdateCheck/StatusStruct/App/DayStart_enc), accepted_has_required + req_missing/req_duplicate/as*_mistyped (missing, duplicated or wrongly typed required members are rejected), opt_absent/opt_null/opt_empty_string (absent = null, empty is kept), prefix_neutral / no_prefix_unchanged / double_prefix_rejected, parse_total, full_urls_product/length/mem; the JSON text reader and the typing rules are run against the real parse_json_response on every invocation.",
+        "level_note": "Trusted: Lean kernel; the hand-written model of serde_json + serde derive; harness and diff. decode_encode is proved at the JSON-value level; the text-level round trip is established by the correspondence only.",
+    },
 }
